@@ -88,7 +88,7 @@ func c09Gen(t *rapid.T) c09Plan {
 	}
 	p.Restart = rapid.IntRange(0, 3).Draw(t, "restart") == 0
 	p.RestoreSlow = p.Restart && rapid.Bool().Draw(t, "restore-slow")
-	p.Together = p.N >= 2 && rapid.Bool().Draw(t, "together")
+	p.Together = p.N >= 2 && rapid.IntRange(0, 3).Draw(t, "together") > 0
 	p.DrainAt = -1
 	if rapid.IntRange(0, 2).Draw(t, "drain-episode") == 0 {
 		p.DrainAt = rapid.IntRange(0, ne-1).Draw(t, "drain-at")
